@@ -246,6 +246,10 @@ impl Broker {
             Emit::Script => {
                 let m = self.cfg.script[self.script_next].clone();
                 self.script_next += 1;
+                if m.qos == 9 {
+                    // scripted unsolicited PINGRESP (a valid packet the client must simply absorb)
+                    return SPacket::PingResp;
+                }
                 let pkt = Self::publish_packet(&m, false);
                 if m.qos > 0 {
                     self.b2c.push(B2c {
